@@ -100,7 +100,8 @@ ObsEv(o, name, e) ==
     [] name = "Close" -> [o EXCEPT !.closed = "called"]
     [] name = "End" ->
          LET o1 == V(o, o.closed # "called", "CloseHangs")
-         IN V(o1, ~(o.fp > 0 /\ o.closed = "no"), "ReloadEventHangs")
+             o2 == V(o1, ~e.leak, "ReloaderSurvivesClose")
+         IN V(o2, ~(o.fp > 0 /\ o.closed = "no"), "ReloadEventHangs")
     [] OTHER -> o
 
 \* why the table may have become tv (it differs from the previous probe)
